@@ -146,7 +146,7 @@ META["C08"] = {
     "rule": "cases = (source, take count, local|threads scheduler form, FIFO|any task order, due-stepping|late schedule, schedule seed). Sources: interval / interval_at with periods {1,7,100} ms and instants {past, now, +10ms, +250ms, +1h}; timer / timer_at with delays {0,1,7,100} ms and the same instants; from_future(_result) / from_stream(_result) over scripted futures/streams (ready at once, pending k polls self-woken or woken by the explorer, error at position i, empty). Due-stepping runs fire one due timer at a time and run tasks to quiescence (exact 'one period' oracle); late runs leave tasks waiting and jump the clock ('never earlier' oracle). A third of the timed cases (counter runs_with_idle_gap_before_first_poll) move the clock by {period/2, period-1ns, period, 3 periods+1ns, 3 ms} between subscribe() and the executor's first run, then due-step: the first interval / interval_at value is still due at max(subscription + period | the instant, first run). One stream case in six is long (20..100 items, all ready at once or with a rare pending; counter long_stream_runs). Non-trivial: >= 2 ticks observed, or the future/stream was pending at least once; distinct = hash(case). A share of the cases (counter runs_on_the_real_LocalPool) is built with the library's own `impl Scheduler for futures::executor::LocalSpawner` and run on the real futures LocalPool (run_until_stalled / try_run_one) instead of the harness executor. Thread part (scenario interval+workers): interval(1ms).take(k) with 1-2 worker threads running the periodic task and firing the virtual timers, optionally an unsubscribing thread (random/PCT, preemption-bounded systematic, free-running): values 0,1,2,... in order each once; without an unsubscribe exactly k values then completion once the workers ran until idle.",
     "assumptions": COMMON_ASSUME + [
         "the _at forms read the real Instant::now(): the instant is placed relative to the case's start and the real time the case took (plus 1 ms) is the tolerance on 'never earlier'; 'exactly' is only demanded of due-stepping runs on the virtual clock",
-        "for an instant that has already passed the first interval_at tick may come anywhere between 'now' and one period later",
+        "for an instant that has already passed ('at the given instant' cannot be met any more) the first interval_at value is due at once, i.e. at the executor's first run",
         "timer / timer_at are bounded from below only ('no earlier than the due time'): the exact upper bound is checked on due-stepping runs without an idle gap; after an idle gap a one-shot task's delay legitimately starts at the first poll",
     ],
     "technique": "runtime monitoring: virtual-time stamps recorded by the probe for real interval/timer/from_* sources under an explorer-chosen timer/task order, checked against a timed reference model",
